@@ -324,7 +324,7 @@ func evalInput(cfg evalCfg, frags []string) string {
 }
 
 // classify names the failing-input class of a disagreement (the signature).
-func evalSig(what string, frags []string, codeless bool) string {
+func evalSig(what string, frags []string, codeless, optTiming bool) string {
 	cls := "general"
 	all := strings.Join(frags, "\n")
 	switch {
@@ -332,6 +332,10 @@ func evalSig(what string, frags []string, codeless bool) string {
 		// the fragment compiled to no instruction but the final RETURN 0: the session
 		// answers undefined, the single script the value of the preceding expression statement
 		cls = "codeless-fragment"
+	case optTiming:
+		// the optimizer reports a failing constant expression at compile time when its budget
+		// reaches it, the VM at run time otherwise; every fragment gets a fresh budget
+		cls = "optimizer-error-timing"
 	case variadicParamRe.MatchString(all):
 		cls = "variadic-param"
 	case strings.Contains(all, "param"):
@@ -349,10 +353,10 @@ func checkCut(c *Ctx, cfg evalCfg, es *gen.EvalScript, mask uint64, batch map[in
 	frags, ends := fragmentsOf(es.Stmts, mask)
 	ev := newEvalSession(cfg)
 	cumOut := ""
-	codeless := false
+	codeless, optTiming := false, false
 	viol := func(what, detail string, k int) {
 		c.Violation(PropViolation{Property: "C10", What: what + ": " + detail, Input: evalInput(cfg, frags[:k+1]),
-			Sig: evalSig(what, frags[:k+1], codeless && what == "result")})
+			Sig: evalSig(what, frags[:k+1], codeless && what == "result", optTiming && what == "result")})
 	}
 	for k, f := range frags {
 		so := runFragment(ev, f)
@@ -370,6 +374,16 @@ func checkCut(c *Ctx, cfg evalCfg, es *gen.EvalScript, mask uint64, batch map[in
 			c.Count("timeout")
 			return
 		}
+		optErr := func(kind, res string) string {
+			if kind == "goerr" && strings.HasPrefix(res, "Optimizer Error: ") {
+				return strings.TrimSpace(strings.TrimPrefix(res, "Optimizer Error: "))
+			}
+			if kind == "rterr" {
+				return strings.TrimSpace(res)
+			}
+			return "\x00" + kind
+		}
+		optTiming = so.kind != b.fo.kind && optErr(so.kind, so.res) == optErr(b.fo.kind, b.fo.res)
 		if so.kind == "panic" || b.fo.kind == "panic" {
 			viol("panic", fmt.Sprintf("fragment %d: session %s %s, batch %s %s", k, so.kind, so.res, b.fo.kind, b.fo.res), k)
 			return
@@ -633,6 +647,15 @@ func init() {
 					checkCut(c, evalCfg{noOpt: true, args: w.args}, es, m, batch)
 					checkCut(c, evalCfg{args: w.args}, es, m, batch)
 				}
+			}
+			{
+				// open finding C10:optimizer-error-timing (found by the thorough tier, seed 7920)
+				st := []string{"global log", "log = []", "log = append(log, 1)", "typeName := func(...a) { return \"shadow\" }",
+					"(3 ^ len([]))", "(2 == (2 ^ 7))", "((\"k\" + \"ab\") + (\"ab\" + \"k\"))", "({a: 2})", "v1 := 3",
+					"try {\n  throw v1\n} catch e {\n  v1 = [e.Message]\n} finally {\n  v1\n}", "const c2 = undefined",
+					"v3 := [(7 / 0), [100, 100][1]][0]"}
+				es := &gen.EvalScript{Stmts: st, FailAt: -1, Probes: make([][]string, len(st))}
+				checkCut(c, evalCfg{limit: 1}, es, (1<<uint(len(st)-1))-1, map[int]*batchRes{})
 			}
 			for i := 0; i < nSmall; i++ {
 				run(8, true)
